@@ -382,7 +382,7 @@ func runC06Case(e *Env, lp *vk.ListenerPool, c c06Case) c06Out {
 	cfg1 := cfg
 	cfg1.SendDeco = &vk.Deco{}
 	r1 := vk.RunTransfer(context.Background(), cfg1, lp, src, outDir)
-	transfer.FlushAllFlushers()
+	transfer.VerifRetireSidecars(outDir)
 	if !r1.BothOK() {
 		out.setup = fmt.Sprintf("first transfer failed: %v / %v", r1.SendErr, r1.RecvErr)
 		return out
